@@ -20,7 +20,7 @@ def sh(cmd, cwd=None, timeout=3000):
 
 
 def failing_tests(wt):
-    rc, out = sh("cargo test --workspace --no-fail-fast --offline 2>&1", cwd=wt)
+    rc, out = sh("cargo test --workspace --no-fail-fast --offline -j 6 2>&1", cwd=wt)
     fails = sorted(set(re.findall(r"^test (\S+) \.\.\. FAILED", out, re.M)))
     passed = sum(int(x) for x in re.findall(r"test result: \w+\. (\d+) passed", out))
     sh("git clean -fdq test_data", cwd=wt)
@@ -55,7 +55,10 @@ def main():
     meta["confirmed"] = (rc0 == 0 and rc1 == 1 and fails0 == fails1 and passed0 == passed1)
     meta["ran"].append("in %s: demo.sh without the patch (exit %d) and with it (exit %d); cargo test --workspace --no-fail-fast --offline both ways "
                        "(%d/%d passed, failing: %s / %s)" % (wt, rc0, rc1, passed0, passed1, fails0, fails1))
-    # (2) the checks
+    # (2) the checks (one seed at a time in /repo: several evaluations may run their worktree phase concurrently)
+    import fcntl
+    lockf = open("/tmp/seed-eval.lock", "w")
+    fcntl.flock(lockf, fcntl.LOCK_EX)
     rc, o = sh("git -C /repo status --porcelain --untracked-files=no")
     assert o.strip() == "", "/repo is not clean: " + o
     rc, o = sh("git -C /repo apply %s" % patch)
@@ -71,6 +74,7 @@ def main():
             meta["ran"].append("git -C /repo apply patch.diff; python3 check.py %s --tier quick -> exit %d, %d VIOLATION line(s)" % (p, rc, len(viol)))
     finally:
         sh("git -C /repo checkout -- .")
+        fcntl.flock(lockf, fcntl.LOCK_UN)
     meta["checks"] = results
     meta["caught_by"] = [p for p, r in results.items() if r["exit"] == 1]
     d = os.path.join(V, "seeded", sid)
